@@ -14,6 +14,9 @@ package blocklist
 //   sched     forced schedules: mutation+snapshotLocked under mu, persist() of the outstanding
 //             snapshots in an arbitrary order (newest first included)
 //   reload*   a fresh BlockList over the directory another one wrote
+//   gated     the real Set/Remove/SetBatch/RemoveBatch as goroutines while the driver holds saveMu:
+//             saving calls queue at persist(), calls that change nothing pass in between, then the gate opens
+//   ioerr*    like crash*, but SIGXFSZ stays ignored: the write fails with EFBIG and the process goes on
 //   parse-hosts  list files in hosts / plain-domain syntax (comments, aliases, tabs, CRLF) loaded by New
 //   crash*    a child process applies one API call and is killed by the kernel when
 //             the temp file reaches a chosen size (RLIMIT_FSIZE + default SIGXFSZ);
@@ -139,8 +142,12 @@ func (o vC18Op) apply(b *BlockList) int {
 
 // ---------------------------------------------------------------- generators
 
+// the pool covers the whole alphabet incl. the boundary letters a/z and their
+// ASCII neighbours ('@' '[' before/after A-Z, '`' '{' around a-z), which case
+// folding must leave alone
 var vC18Labels = []string{"example", "notexample", "exampl", "examplee", "ex-ample", "com", "org", "net", "co", "uk",
-	"a", "b", "www", "ads", "x1", "sub", "m", "com-x", "tracker", "cdn"}
+	"a", "b", "www", "ads", "x1", "sub", "m", "com-x", "tracker", "cdn",
+	"zone", "quiz", "az", "jazz", "z", "adzone", "a[b", "x`y", "q{r", `y\@z`, "fghijklmnopqrstuvwxyz"}
 
 func vC18Name(r *rand.Rand) string {
 	n := 1 + r.Intn(4)
@@ -157,14 +164,73 @@ func vC18Name(r *rand.Rand) string {
 	return strings.Join(parts, ".") + "."
 }
 
+// case variants of a name: per-character coin flips, exactly one capital (any
+// position, so also a lone 'A' or a lone 'Z'), only the boundary letters a/z
+// capitalised, everything capitalised
 func vC18MixCase(r *rand.Rand, s string) string {
 	b := []byte(s)
+	var letters []int
 	for i := range b {
-		if b[i] >= 'a' && b[i] <= 'z' && r.Intn(2) == 0 {
+		if b[i] >= 'a' && b[i] <= 'z' {
+			letters = append(letters, i)
+		}
+	}
+	if len(letters) == 0 {
+		return s
+	}
+	switch r.Intn(5) {
+	case 0: // exactly one capital
+		b[letters[r.Intn(len(letters))]] -= 32
+	case 1: // only a / z
+		hit := false
+		for _, i := range letters {
+			if b[i] == 'a' || b[i] == 'z' {
+				if r.Intn(3) > 0 {
+					b[i] -= 32
+					hit = true
+				}
+			}
+		}
+		if !hit {
+			b[letters[r.Intn(len(letters))]] -= 32
+		}
+	case 2: // all
+		for _, i := range letters {
 			b[i] -= 32
+		}
+	default:
+		for _, i := range letters {
+			if r.Intn(2) == 0 {
+				b[i] -= 32
+			}
 		}
 	}
 	return string(b)
+}
+
+// a different name that a sloppy case fold would identify with s: one of the
+// bytes next to the letter ranges moved by 32 ('@' <-> '`', '[' <-> '{')
+func vC18NeighbourSwap(r *rand.Rand, s string) (string, bool) {
+	b := []byte(s)
+	var pos []int
+	for i := range b {
+		switch b[i] {
+		case '@', '[', '`', '{':
+			if i == 0 || b[i-1] != '\\' {
+				pos = append(pos, i)
+			}
+		}
+	}
+	if len(pos) == 0 {
+		return s, false
+	}
+	i := pos[r.Intn(len(pos))]
+	if b[i] < 96 {
+		b[i] += 32
+	} else {
+		b[i] -= 32
+	}
+	return string(b), true
 }
 
 // the way a user might spell a key: optional trailing dot, mixed case
@@ -245,7 +311,7 @@ func vC18Probes(r *rand.Rand, entries []string, count int) []string {
 			return l + "." + e
 		}
 		var q string
-		switch r.Intn(14) {
+		switch r.Intn(18) {
 		case 0:
 			q = e
 		case 1:
@@ -277,6 +343,16 @@ func vC18Probes(r *rand.Rand, entries []string, count int) []string {
 		case 12:
 			// sibling: replace first label
 			q = "zz." + vC18Parent(e)
+		case 13:
+			if x, ok := vC18NeighbourSwap(r, e); ok {
+				q = x
+			} else {
+				q = vC18MixCase(r, under("a.z"))
+			}
+		case 14, 15:
+			q = vC18MixCase(r, e)
+		case 16:
+			q = vC18MixCase(r, under(vC18Labels[r.Intn(len(vC18Labels))]))
 		default:
 			q = vC18Parent(vC18Parent(e))
 		}
@@ -1083,6 +1159,126 @@ func vC18CaseParse(t *testing.T, r *rand.Rand, out *vC18Out) {
 		map[string]any{"whitelist": whitelist, "blocklist": cfgBlock, "files": files, "loaded_m": m, "loaded_wild": wild}, len(m)+len(wild) > 0, "", "")
 }
 
+// gated schedules with the REAL API methods: the driver holds saveMu, so every
+// call that has something to save stops at the door of persist() after its
+// mutation; calls that change nothing (Remove of an absent name, Set / SetBatch of
+// whitelisted names, RemoveBatch of absent names) run to completion in between.
+// When the gate opens the queued persists run in whatever order the mutex grants.
+// Mutations are serialized by the driver (a reference list applied in the same
+// order tells when a call's mutation has landed), so the final memory is known;
+// the file must be that memory.
+func vC18CaseGated(t *testing.T, r *rand.Rand, out *vC18Out) {
+	dir := vC18Dir(t)
+	cfg := vC18Cfg(r, dir)
+	pool := vC18KeyPool(r, "", false)
+	cfg.Whitelist = vC18Whitelist(r, pool)
+	if len(cfg.Whitelist) == 0 && r.Intn(2) == 0 {
+		cfg.Whitelist = []string{strings.TrimPrefix(pool[r.Intn(len(pool))], "*.")}
+	}
+	b := vC18NewQuiet(cfg)
+	ref := vC18NewQuiet(&config.Config{BlockListDir: vC18Dir(t), Whitelist: cfg.Whitelist})
+	m0, wild0, w := vC18Dump(b)
+	same := func(x *BlockList, y *BlockList) bool {
+		xm, xw, _ := vC18Dump(x)
+		ym, yw, _ := vC18Dump(y)
+		return strings.Join(xm, "\n") == strings.Join(ym, "\n") && strings.Join(xw, "\n") == strings.Join(yw, "\n")
+	}
+	// a call that is certain to change nothing
+	noop := func() vC18Op {
+		absent := "absent-" + vC18Name(r)
+		switch r.Intn(4) {
+		case 0:
+			return vC18Op{"remove", []string{absent}}
+		case 1:
+			return vC18Op{"removebatch", []string{absent, "*." + absent}}
+		case 2:
+			if len(cfg.Whitelist) > 0 {
+				return vC18Op{"set", []string{"x." + cfg.Whitelist[0]}}
+			}
+			return vC18Op{"remove", []string{"*." + absent}}
+		default:
+			if len(cfg.Whitelist) > 0 {
+				return vC18Op{"setbatch", []string{cfg.Whitelist[0], "*.y." + cfg.Whitelist[0]}}
+			}
+			return vC18Op{"removebatch", []string{absent}}
+		}
+	}
+	var parts []string
+	var desc []any
+	anyOK := false
+	goFail := ""
+	rounds := 1 + r.Intn(3)
+	for round := 0; round < rounds; round++ {
+		b.saveMu.Lock() // gate closed
+		var waiting []chan int
+		var rets []int
+		ncalls := 2 + r.Intn(5)
+		for i := 0; i < ncalls; i++ {
+			var op vC18Op
+			if r.Intn(5) < 2 {
+				op = noop()
+			} else {
+				op = vC18RandOp(r, pool)
+			}
+			bm0, bw0, _ := vC18Dump(ref)
+			ret := op.apply(ref) // the reference list tells what the call does
+			bm1, bw1, _ := vC18Dump(ref)
+			changed := strings.Join(bm0, "\n") != strings.Join(bm1, "\n") || strings.Join(bw0, "\n") != strings.Join(bw1, "\n")
+			if ret > 0 && !changed && i < 50 {
+				// succeeds without changing memory (Set of a present key): its progress cannot be
+				// observed from outside; undo nothing (ref unchanged) and pick another call
+				// -- the sequential histories cover it
+				ncalls++
+				continue
+			}
+			done := make(chan int, 1)
+			go func(op vC18Op) { done <- op.apply(b) }(op)
+			got := -1
+			if ret == 0 {
+				// nothing to save: must return although the gate is closed
+				select {
+				case got = <-done:
+				case <-time.After(20 * time.Second):
+					b.saveMu.Unlock()
+					t.Fatalf("a call that changes nothing blocks on saveMu: %v", op)
+				}
+			} else {
+				// wait until the mutation has landed (the call is now queued at the gate, or, if the
+				// code under test decided not to save, finished)
+				for spins := 0; !same(b, ref); spins++ {
+					time.Sleep(50 * time.Microsecond)
+					if spins > 400000 {
+						b.saveMu.Unlock()
+						xm, xw, _ := vC18Dump(b)
+						ym, yw, _ := vC18Dump(ref)
+						t.Fatalf("mutation of %v never became visible: list %v %v reference %v %v", op, xm, xw, ym, yw)
+					}
+				}
+				waiting = append(waiting, done)
+				rets = append(rets, ret)
+				anyOK = true
+			}
+			if ret == 0 && got != 0 {
+				goFail = fmt.Sprintf("%v returned %d on the list under the gate, %d on the reference list", op, got, ret)
+			}
+			parts = append(parts, fmt.Sprintf("(%s, %d%%N)", op.coq(), ret))
+			desc = append(desc, []any{op.Kind, op.Keys, "returns", ret, "queued_at_gate", ret > 0})
+		}
+		b.saveMu.Unlock() // gate open: the queued persists run
+		for i, d := range waiting {
+			if got := <-d; got != rets[i] {
+				goFail = fmt.Sprintf("queued call returned %d, reference %d", got, rets[i])
+			}
+		}
+		desc = append(desc, "gate opened, all calls returned")
+	}
+	m1, wild1, _ := vC18Dump(b)
+	present, file := vC18ReadLocal(dir)
+	out.emit("gated", fmt.Sprintf("CaseHistory %s %s %s [%s] %s %s %s", vC18List(m0), vC18List(wild0), vC18List(w), strings.Join(parts, "; "),
+		vC18List(m1), vC18List(wild1), vC18OptStr(present, file)),
+		map[string]any{"w": w, "calls": desc, "m1": m1, "wild1": wild1, "file_present": present, "file": file}, anyOK, goFail, "")
+}
+
 // ---------------------------------------------------------------- interruption
 
 type vC18ChildSpec struct {
@@ -1090,6 +1286,7 @@ type vC18ChildSpec struct {
 	Whitelist []string `json:"whitelist"`
 	Op        vC18Op   `json:"op"`
 	Limit     uint64   `json:"limit"`
+	Kill      bool     `json:"kill"` // restore SIGXFSZ's default action (process dies) or leave it ignored (write fails with EFBIG)
 }
 
 // TestVerifC18Child runs in a child process: production New over the directory,
@@ -1117,8 +1314,10 @@ func TestVerifC18Child(t *testing.T) {
 		mask     uint64
 	}
 	var sa sigact
-	if _, _, e := syscall.RawSyscall6(syscall.SYS_RT_SIGACTION, uintptr(syscall.SIGXFSZ), uintptr(unsafe.Pointer(&sa)), 0, 8, 0, 0); e != 0 {
-		os.Exit(3)
+	if spec.Kill {
+		if _, _, e := syscall.RawSyscall6(syscall.SYS_RT_SIGACTION, uintptr(syscall.SIGXFSZ), uintptr(unsafe.Pointer(&sa)), 0, 8, 0, 0); e != 0 {
+			os.Exit(3)
+		}
 	}
 	_ = syscall.Setrlimit(syscall.RLIMIT_CORE, &syscall.Rlimit{})
 	if err := syscall.Setrlimit(syscall.RLIMIT_FSIZE, &syscall.Rlimit{Cur: spec.Limit, Max: spec.Limit}); err != nil {
@@ -1128,7 +1327,7 @@ func TestVerifC18Child(t *testing.T) {
 	os.Exit(0)
 }
 
-func vC18CaseCrash(t *testing.T, r *rand.Rand, out *vC18Out) {
+func vC18CaseCrash(t *testing.T, r *rand.Rand, out *vC18Out, kill bool) {
 	dir := vC18Dir(t)
 	pool := vC18KeyPool(r, "", false)
 	whitelist := vC18Whitelist(r, pool)
@@ -1177,7 +1376,7 @@ func vC18CaseCrash(t *testing.T, r *rand.Rand, out *vC18Out) {
 					limit = r.Intn(total)
 				}
 			}
-			spec := vC18ChildSpec{Dir: dir, Whitelist: whitelist, Op: op, Limit: uint64(limit)}
+			spec := vC18ChildSpec{Dir: dir, Whitelist: whitelist, Op: op, Limit: uint64(limit), Kill: kill}
 			raw, _ := json.Marshal(spec)
 			cmd := exec.Command(os.Args[0], "-test.run", "^TestVerifC18Child$", "-test.count=1")
 			cmd.Env = append(os.Environ(), "VERIF_C18_CHILD="+string(raw))
@@ -1217,7 +1416,16 @@ func vC18CaseCrash(t *testing.T, r *rand.Rand, out *vC18Out) {
 			if len(temps) > 0 {
 				fkey = vC18KeyTemp
 			}
-			out.emit(k, fmt.Sprintf("CaseCrash %s %s (%s) %d %s %s %s %s %s %s %s %s", vC18List(whitelist), vC18Str(old), op.coq(), limit,
+			ctor := "CaseCrash"
+			if !kill {
+				// the process survived: the write failed with EFBIG and persist() had to clean up
+				ctor = "CaseIoErr"
+				k = "ioerr-write-fails"
+				if limit >= total {
+					k = "ioerr-none"
+				}
+			}
+			out.emit(k, fmt.Sprintf(ctor+" %s %s (%s) %d %s %s %s %s %s %s %s %s", vC18List(whitelist), vC18Str(old), op.coq(), limit,
 				vC18OptStr(present, local), vC18List(temps), vC18List(rm), vC18List(rwild),
 				vC18List(oldM), vC18List(oldWild), vC18List(newM), vC18List(newWild)),
 				map[string]any{"whitelist": whitelist, "old_file": old, "op": []any{op.Kind, op.Keys}, "limit": limit, "killed_by_SIGXFSZ": killed,
@@ -1247,7 +1455,12 @@ func TestVerifC18(t *testing.T) {
 	seed := int64(vC18EnvInt("VERIF_SEED", 1))
 	n := vC18EnvInt("VERIF_N", 400)
 	r := rand.New(rand.NewSource(seed*1000003 + 18))
+	only := os.Getenv("VERIF_C18_ONLY") // debugging aid: run a single case kind
 	for c := 0; out.n < n && c < 4*n; c++ {
+		if only == "gated" {
+			vC18CaseGated(t, r, out)
+			continue
+		}
 		switch x := r.Intn(100); {
 		case x < 36:
 			vC18CaseExists(t, r, out)
@@ -1259,14 +1472,18 @@ func TestVerifC18(t *testing.T) {
 			vC18CaseHistory(t, r, out, false)
 		case x < 78:
 			vC18CaseHistory(t, r, out, true)
-		case x < 81:
+		case x < 80:
 			vC18CaseConc(t, r, out)
-		case x < 86:
+		case x < 83:
 			vC18CaseSched(t, r, out)
+		case x < 86:
+			vC18CaseGated(t, r, out)
 		case x < 90:
 			vC18CaseParse(t, r, out)
+		case x < 96:
+			vC18CaseCrash(t, r, out, true)
 		default:
-			vC18CaseCrash(t, r, out)
+			vC18CaseCrash(t, r, out, false)
 		}
 	}
 }
